@@ -81,7 +81,7 @@ func (wd *View) CheckStore(m *model.Store, inflight *model.Block, inflightIface 
 		}
 		wantDay := m.Ifaces[k.iface][k.day]
 		isInflightDay := inflight != nil && k == inflightKey
-		if wantDay == nil && !isInflightDay && wd.EmptyDayOK == fmt.Sprintf("%s/%d", k.iface, k.day) {
+		if wantDay == nil && !isInflightDay && strings.Contains(wd.EmptyDayOK, fmt.Sprintf(";%s/%d;", k.iface, k.day)) {
 			if _, ok := wd.FS.ReadRaw(wd.Tree, fmt.Sprintf("%s/.blockmeta", DayPath(wd.Rel, k.iface, k.day, names[0]))); !ok {
 				continue
 			}
